@@ -756,3 +756,17 @@ Lemma builtins_host_free_refuted :
                         t_builtin := [(s "print", [s "fmt.Fprintf"; s "n.interp.stdout"; s "fmt.Print"]);
                                       (s "println", [s "fmt.Fprintf"; s "n.interp.stdout"])] |} = false.
 Proof. vm_compute. reflexivity. Qed.
+
+(* ------------------------------------------------------------------ *)
+(** * closed world of the replacements; environment defaults of the command *)
+Lemma replacements_closed_live : replacements_closed live = true.
+Proof. vm_compute. reflexivity. Qed.
+
+Lemma cli_defaults_live : cli_defaults_parsebool sb_cli_env_defaults = true.
+Proof. vm_compute. reflexivity. Qed.
+
+(** whatever the value of the variable and the flag: with ParseBool defaults the command opens the
+    sandbox exactly when the contract says *)
+Lemma cli_on_agrees rows value flagv :
+  cli_defaults_parsebool rows = true -> y_cli_on rows value flagv = g_cli_on value flagv.
+Proof. unfold y_cli_on, g_cli_on. intros ->. reflexivity. Qed.
